@@ -50,6 +50,9 @@ func (*c18) Assumptions() []string {
 
 var c18Ints = []int64{0, 1, -1, 7, 42, 255, 1 << 31, -(1 << 31), 1<<53 - 1, 1 << 53, 1<<53 + 1, -(1<<53 + 1), math.MaxInt64, math.MinInt64, math.MaxInt64 - 1, 1000000, 999999999999}
 var c18Floats = []float64{0, math.Copysign(0, -1), 0.5, -0.5, 1, 1.5, 1e-6, 9.99e-7, 1e-7, 1.5e-9, 1e-10, 1.5e-12, 1e-99, 1e-100, 1e21, 9.9e20, 1e20, 1e19, 9.223372036854775e18, 9.3e18, -1e19,
+	// whole-number floats at the edges of the integer types (an encoder that takes an integer short cut must get these right)
+	9223372036854775808.0, -9223372036854775808.0, 9223372036854774784.0, 9223372036854777856.0, -9223372036854777856.0, 4611686018427387904.0, 18446744073709551616.0, 18446744073709549568.0,
+	4294967296.0, 2147483648.0, -2147483649.0, 9007199254740993.0, 1e15, 1e16, 123456789012345680.0, -1e18,
 	123456789.125, 1.0 / 3, 5e-324, math.MaxFloat64, -math.MaxFloat64, 1e300, 1e-300, 2.5e-8, 100, 1e6, 6.02e23, -2.718281828e-10, 1 << 53, 4.9e-320, 3.14159}
 var c18Strs = []string{"", "a", "key", "hello world", "héllo", "日本語", "🙂", "q\"uote", "back\\slash", "sl/ash", "tab\t", "nl\n", "cr\r", "\x00", "\x01\x1f", "\x7f", "\u2028\u2029", "<>&", "\u00e9\u0301",
 	"\ufffd", "\U0010FFFF", "a b", "ünï", "\b\f", strings.Repeat("x", 70)}
